@@ -25,17 +25,17 @@ pub static DEF: PropDef = PropDef {
 	runs,
 	gen,
 	eval,
-	shrink: crate::shrink::lib_shrink,
+	shrink: |case| if case["kind"].as_str() == Some("proc") { vec![] } else { crate::shrink::lib_shrink(case) },
 	rule: "library part: run = 1-3 translate calls on one Translator; inputs drawn from: random bytes, structure-aware mutants of valid documents of every format, token sequences (exhaustive up to length 3 in C02, sampled up to 14 here), adversarial shapes (nesting at and far beyond every limit, MessagePack length prefixes up to 2^32-1 on str/bin/ext/array/map, YAML alias bombs, lone anchors/aliases, empty input, BOMs, UTF-16/32 with ill-formed units), valid documents paired with targets that must refuse them at random positions; 5 source selections x 4 targets x slice/reader with drawn read sizes; producer faults (6 kinds), consumer faults (3 kinds), EINTR, failing flush. Process part: see C13-C16/C18 process checks, which enforce 'exit 0/1 or SIGPIPE only' on every spawn. Non-trivial: at least one call returned Err (an error path ran). Distinct = distinct (bytes, formats, supply, schedule, faults).",
-	real: LIB_REAL,
-	stub: LIB_STUB,
+	real: &["xt library under the simulator (7 of 8 runs)", "the shipped debug and release binaries on an 8 MiB main-thread stack (1 of 8 runs)", "serde_json, serde_yaml, unsafe-libyaml, rmp, rmp-serde, toml, toml_edit"],
+	stub: &["producer/consumer/caller (library runs)", "byte transport of fds 0/1 and input files, mmap success (process runs: LD_PRELOAD interposer)"],
 	assumptions: &[
 		"which bytes make a parser panic is an input question that coverage-guided fuzzing answers better (the repository ships cargo-fuzz targets); what the simulation adds is the I/O dimension: read cuts, error returns mid-token, failing writers inside the transcoder, repeated calls",
 		"libyaml's scanner is quadratic in the nesting depth of flow mappings; such inputs are kept to depths that finish within the watchdog (slow-but-terminating is not counted as a hang)",
 		"workers run under RLIMIT_AS = 8 GiB so that an allocation bomb aborts the worker (reported as a crash) instead of exhausting the machine",
 	],
-	expected_probes: &["family.random", "family.mutant", "family.tokens", "family.deep", "family.lengths", "family.yaml_aliases", "family.refused_by_target", "family.utf16_32", "family.empty_or_bom", "r.fail.fired", "w.fail.fired", "r.eintr.fired", "second_call_after_error", "verdict.err", "verdict.ok"],
-	needs_bins: false,
+	expected_probes: &["family.random", "family.mutant", "family.tokens", "family.deep", "family.lengths", "family.yaml_aliases", "family.refused_by_target", "family.utf16_32", "family.empty_or_bom", "r.fail.fired", "w.fail.fired", "r.eintr.fired", "second_call_after_error", "verdict.err", "verdict.ok", "p.spawn", "p.exit0", "p.exit1", "p.sigpipe", "bin.debug", "bin.release"],
+	needs_bins: true,
 	watchdog_s: 25,
 };
 
@@ -88,6 +88,38 @@ fn alias_doc(r: &mut Rng) -> Vec<u8> {
 }
 
 fn gen(seed: u64, idx: u64, t: Tier) -> J {
+	if idx % 8 == 7 {
+		// Process slice: the same kind of input through the real binaries.
+		use crate::procsim::{FileSpec, ProcCase, ReadPlan};
+		let lib = gen(seed, idx - 1, t);
+		let sc = parse(&lib);
+		let mut r = Rng::derive(seed, "C04p", idx);
+		let mut c = ProcCase { bin: if r.chance(1, 2) { "debug" } else { "release" }.to_owned(), ..Default::default() };
+		if sc.to != Fmt::Json {
+			c.args.push(format!("-t{}", sc.to.letter()));
+		}
+		if let Some(f) = sc.calls[0].from {
+			c.args.push(format!("-f{}", f.letter()));
+		}
+		for (i, call) in sc.calls.iter().enumerate() {
+			if i == 0 && call.reader {
+				c.stdin = Some(call.bytes.clone());
+				c.stdin_plan = Some(ReadPlan { sched: call.sched.clone(), ..Default::default() });
+				c.args.push("-".into());
+			} else {
+				let name = format!("in{i}");
+				c.files.push(FileSpec { name: name.clone(), kind: "file".into(), bytes: call.bytes.clone(), plan: Some(ReadPlan { sched: call.sched.clone(), ..Default::default() }) });
+				c.args.push(name);
+			}
+		}
+		c.nommap = r.chance(1, 3);
+		c.wsched = sc.writer.sched.clone();
+		if let Some(f) = &sc.writer.fault {
+			c.wfail = Some((f.at, *r.pick(&[crate::procsim::EPIPE, crate::procsim::ENOSPC, crate::procsim::EIO])));
+		}
+		c.params.insert("families".into(), sc.params.get("families").cloned().unwrap_or(J::Null));
+		return c.to_json();
+	}
 	let mut r = Rng::derive(seed, "C04", idx);
 	let ncalls = *r.pick(&[1usize, 1, 1, 2, 2, 3]);
 	let to = *r.pick(&ALL_FMTS);
@@ -197,7 +229,30 @@ fn deep_depth(r: &mut Rng, limit: usize, yaml_maps: bool, t: Tier) -> usize {
 	}
 }
 
+fn eval_proc(case: &J) -> Eval {
+	use crate::procsim;
+	let mut ev = Eval::default();
+	let Some(c) = procsim::ProcCase::from_json(case) else { return ev };
+	let o = procsim::run(&c);
+	procsim::write_plan_note(&mut ev, &c, &o);
+	ev.count("p.spawn", 1);
+	ev.key = crate::rng::fnv(case.to_string().as_bytes());
+	ev.trace = hash_str(&o.status());
+	if !procsim::proc_invariants(&mut ev, &c, &o) {
+		return ev;
+	}
+	if o.signal.is_none() && !matches!(o.code, Some(0 | 1)) {
+		ev.violate(format!("proc/exit-{}", o.code.unwrap_or(-1)), format!("xt {:?} ended with {} on a valid command line", c.args, o.status()));
+	}
+	ev.count(if o.signal == Some(13) { "p.sigpipe" } else if o.code == Some(0) { "p.exit0" } else { "p.exit1" }, 1);
+	ev.nontrivial = o.code == Some(1);
+	ev
+}
+
 fn eval(case: &J) -> Eval {
+	if case["kind"].as_str() == Some("proc") {
+		return eval_proc(case);
+	}
 	let sc = parse(case);
 	let mut ev = Eval::default();
 	for f in sc.params.get("families").and_then(J::as_array).cloned().unwrap_or_default() {
